@@ -1516,6 +1516,7 @@ pub fn run(cfg: &Cfg) -> Report {
   }
 
   lexfix_families(&mut rep, &mut model);
+  keyword_family(&mut rep, &mut model);
   flagged_family(&mut rep, &mut model, &mut rng, thorough);
   namechar_family(&mut rep, &mut model, &mut rng, thorough);
   declared_family(&mut rep, &mut rng, thorough);
@@ -2294,6 +2295,85 @@ fn lexfix_families(rep: &mut Report, model: &mut Model) {
   for ((keys, text, imp), a) in toks.iter().zip(answers.iter()) {
     rep.case(&format!("tokens|{:?}|name-forms|{}", keys, text), true);
     rep.hit("tokens:name-forms");
+    if let Err((what, imp, exp)) = compare_streams(imp, a) {
+      rep.disagree(Kind::ImplVsModel, "tokens", &format!("lexer token stream: {}", what), &format!("keys={:?} flags=(false, false, false, false) input={:?}", keys, text), &imp, &exp);
+    }
+  }
+}
+
+// ------------------------------------------------------------------------------------------
+// keyword-word: bound names around every keyword arm of read_next_token (the words come from the regenerated table)
+// ------------------------------------------------------------------------------------------
+
+const SIG_KEYWORD_WORD: &str = "a bound name whose first word only begins with a keyword, that has a keyword as a later word, or whose first word is a keyword without the follower the keyword needs, does not evaluate to its bound value";
+
+/// For every arm of `read_next_token` whose pattern begins with a letter (`(c10 keywords)`: the table regenerated from
+/// lexer.rs): (A) names whose first word is the keyword continued by a name character, (B) names that have the keyword
+/// as a second / middle word, (C) for the keywords recognised through `is_next_character` (function, list, range,
+/// context) the keyword itself as a bound name where that character does not follow — the cases
+/// `bound_name_is_next_token` covers (finding F63 is the complement of C).  The expectation is written out (the bound
+/// number, plus one, in a list, compared); every text also goes token by token against the lexer model.
+fn keyword_family(rep: &mut Report, model: &mut Model) {
+  let table: Vec<(String, String)> = Sexp::parse(&model.ask("(c10 keywords)"))
+    .and_then(|x| x.as_list().map(|l| l.iter().filter_map(|e| { let p = e.as_list()?; Some((cps_to_string(p.first()?)?, cps_to_string(p.get(1)?)?)) }).collect()))
+    .unwrap_or_default();
+  if table.len() < 10 {
+    rep.disagree(Kind::ImplVsModel, "keyword-word", "the table of keyword arms is unreadable", "(c10 keywords)", &format!("{:?}", table), "the arms of read_next_token that begin with a letter");
+    return;
+  }
+  let mut seen: Vec<String> = vec![];
+  let mut cases: Vec<(&'static str, Vec<String>, i128, String, String)> = vec![];
+  for (i, (w, next)) in table.iter().enumerate() {
+    if seen.contains(w) {
+      continue;
+    }
+    seen.push(w.clone());
+    let n = 3 + i as i128;
+    let mut name_cases = |class: &'static str, parts: Vec<String>| {
+      let name = parts.join(" ");
+      cases.push((class, parts.clone(), n, format!("{} + 1", name), format!("{}", n + 1)));
+      cases.push((class, parts.clone(), n, format!("[{}]", name), format!("[{}]", n)));
+      cases.push((class, parts.clone(), n, name.clone(), format!("{}", n)));
+      cases.push((class, parts.clone(), n, format!("{}+1", name), format!("{}", n + 1)));
+      cases.push((class, parts.clone(), n, format!("1000 - {}", name), format!("{}", 1000 - n)));
+      cases.push((class, parts.clone(), n, format!("if {} = {} then 1 else 0", name, n), "1".to_string()));
+    };
+    for suffix in ["x", "1", "_", "é"] {
+      name_cases("longer-first-word", vec![format!("{}{}", w, suffix)]);
+    }
+    name_cases("later-word", vec!["k".to_string(), w.clone()]);
+    name_cases("later-word", vec!["k".to_string(), w.clone(), "z".to_string()]);
+    if !next.is_empty() {
+      name_cases("keyword-without-follower", vec![w.clone()]);
+      name_cases("keyword-without-follower", vec![w.clone(), "z".to_string()]);
+    }
+    // the character the keyword waits for, right after a longer word: still the name
+    if next.contains('<') {
+      cases.push(("longer-first-word", vec![format!("{}x", w)], n, format!("{}x<1000", w), "true".to_string()));
+      cases.push(("longer-first-word", vec![format!("{}x", w)], n, format!("{}x < 1000", w), "true".to_string()));
+    }
+  }
+  let mut reqs = vec![];
+  let mut toks = vec![];
+  for (class, parts, n, text, expected) in &cases {
+    let scope = Scope::default();
+    scope.set_entry(&Name::new(&parts.iter().map(|s| s.as_str()).collect::<Vec<&str>>()), Value::Number(FeelNumber::from_i128(*n)));
+    scope.set_entry(&Name::new(&["k"]), Value::Number(FeelNumber::from_i128(-7)));
+    let keys = sorted_keys(&scope);
+    rep.case(&format!("keyword-word|{}|{}|{}", class, keys.join(","), text), true);
+    rep.hit(&format!("keyword-word:{}", class));
+    let got = eval_text(&scope, text);
+    if got != *expected {
+      rep.disagree(Kind::ImplVsSpec, "keyword-word", SIG_KEYWORD_WORD, &format!("class={} keys={:?} expression={:?}", class, keys, text), &got, expected);
+    }
+    let imp = impl_tokens(&scope, text, (false, false, false, false), 200);
+    reqs.push(tokenize_request(&keys, text, (false, false, false, false), 200));
+    toks.push((keys, text, imp));
+  }
+  let answers = model.ask_batch(&reqs);
+  for ((keys, text, imp), a) in toks.iter().zip(answers.iter()) {
+    rep.case(&format!("tokens|{:?}|keyword-word|{}", keys, text), true);
+    rep.hit("tokens:keyword-word");
     if let Err((what, imp, exp)) = compare_streams(imp, a) {
       rep.disagree(Kind::ImplVsModel, "tokens", &format!("lexer token stream: {}", what), &format!("keys={:?} flags=(false, false, false, false) input={:?}", keys, text), &imp, &exp);
     }
